@@ -99,6 +99,9 @@ func (propC12) Gen(r *Rng, tier string) *World {
 	}
 	w.ChCap = []int{0, 0, 1, 2, 3, 8, -1}[r.Intn(7)] // -1 = ample
 	w.Extra = map[string]string{}
+	if len(w.Calls) > 1 && r.P(0.5) {
+		w.Extra["swap_chan"] = "1"
+	}
 	if r.P(0.4) {
 		w.Extra["bubble"] = "1"
 		w.Extra["sched_seed"] = strconv.FormatUint(r.U64(), 10)
@@ -346,6 +349,15 @@ func (pr propC12) Run(w *World, st *Stats) *Violation {
 		st.Evals++
 		if r.base.Panic != nil {
 			return viol(only(i), "panic", "%s without events panicked: %v\n%s", p.Kind, r.base.Panic, r.base.Stack)
+		}
+		if w.Extra["swap_chan"] == "1" {
+			// the consumer hands the Expr a fresh channel for every call and closes
+			// the previous one (a common way to end a per-evaluation consumer)
+			if c.Ch != nil && c.Ch != inlineCh {
+				close(c.Ch)
+			}
+			c.Ch = make(chan eval.Event, 4*nodes+64)
+			c.Expr.EventChan = c.Ch
 		}
 		r.out = c.Run(ops, p, "eval")
 		st.Evals++
